@@ -239,6 +239,22 @@ def c12_6(ctx):
         ctx.count(1)
         if N(r_.value) not in (want, want2):
             ctx.fail(f, r_, 'array path is `%s`: arrays must take the round trip through pandas so that numpy and pandas inputs are filled identically' % U(r_.value))
+    # the input itself is handed back only when there is no method at all
+    pm = parent_map(f.node)
+    for r_ in [x for x in body_nodes(f.node) if isinstance(x, ast.Return) and x.value is not None and U(x.value) == df]:
+        ctx.count(1, f.where(r_))
+        conds = []
+        cur = r_
+        while cur in pm and pm[cur] is not f.node:
+            par = pm[cur]
+            if isinstance(par, ast.If):
+                conds.append(par.test if cur in par.body else negate(par.test))
+            cur = par
+        t = conds[0] if len(conds) == 1 else ast.BoolOp(ast.And(), conds) if conds else ast.Constant(True)
+        ok = conds and prop_equiv(t, 'len(methods) == 0')[0]
+        if not ok:
+            ctx.fail(f, r_, '_df_fillna hands its input back unchanged when `%s`: only an empty method list leaves the data as they are (a numeric method fills every NaN, also in all-NaN data)' % U(t)[:120],
+                     witness='df_fillna(pd.Series([np.nan, np.nan]), 0)')
     # it must precede the method loop
     loop, m, chain = _method_chain(f)
     if a[0].lineno > loop.lineno:
